@@ -10,7 +10,9 @@ T-corr: the extracted models of MedianFilter / BilateralFilter / MedianForInterv
         the bridging rule (b)+(c): the spatial kernel and the range kernel (one value per
         occurring intensity difference) are computed with the filter's own numpy calls and given
         to the model as exact rationals, results compared with core.close.
-Spec  : independent brute-force oracles of the property sentence applied to the real outputs
+Spec  : the boolean Spec of the median step / of the array-level median extracted from Coq
+        (Model/FiltersCheck.v; proved to accept exactly what Spec/Filters.v accepts) applied to the
+        REAL outputs, and independent brute-force oracles of the property sentence applied to the real outputs
         (sort-based median of the valid window values; math.exp-based Gaussian weighted mean;
         what must not change compared bit for bit), and a crop metamorphic run (the interior of a
         crop is filtered like the same pixels of the whole map: independence of the blocks)."""
@@ -284,9 +286,12 @@ def run_median(ctx, model, p):
         err = exc_name(e)
     ctx.traces += 1
     impl = [] if err else [wire_map(ds["disparity_map"].data), wire_zmap(ds["validity_mask"].data)]
-    marg = (1, [0, w, ny, nx, wire_map(disp), wire_zmap(mask)])
+    marg = [(1, [0, w, ny, nx, wire_map(disp), wire_zmap(mask)])]
+    if not err:
+        # the boolean Spec extracted from Coq (Model/FiltersCheck.v, = Spec by median_step_spec_b_iff) on the REAL output
+        marg.append((5, [w // 2, ny, nx, wire_map(disp), wire_zmap(mask), impl[0], impl[1]]))
 
-    def after(mres):
+    def after(mres, spec_ok=None):
         val = valid_values(disp, mask)
         ctx.case(nontrivial_key(val, w, w // 2, ("median", ny, nx, w, p["inv"], p["seed"])))
         ctx.count("median_cases")
@@ -304,7 +309,12 @@ def run_median(ctx, model, p):
         rp = {"filter": "median", "params": p}
         if not np.array_equal(ds["validity_mask"].data, mask) or ds["validity_mask"].data.dtype != mask.dtype:
             ctx.violation("median_mask_changed", f"median {ny}x{nx}: validity mask changed", rp)
-        check_median_like(ctx, "median", disp, ds["disparity_map"].data, val, w, rp)
+        py_ok = check_median_like(ctx, "median", disp, ds["disparity_map"].data, val, w, rp)
+        ctx.count("median_spec_checker_runs")
+        if spec_ok != 1 and py_ok and np.array_equal(ds["validity_mask"].data, mask):
+            # (when the Python oracle fails too it has already reported the pixel)
+            ctx.violation("median_spec_checker", f"median {ny}x{nx} filter_size {w}: the extracted Spec checker "
+                          f"(median_step_spec_b) rejects the real output", rp)
         if ctx.rng.random() < 0.4:
             crop_check(ctx, "median", p, disp, mask, ds["disparity_map"].data, w // 2, w)
         if ny * nx > 5000:
@@ -494,6 +504,13 @@ def run_mfi(ctx, model, p):
     if spy_in is not None:
         margs.append((4, [0, w, ny, nx, wire_map(binf)]))
         margs.append((4, [0, w, ny, nx, wire_map(bsup)]))
+    n_corr = len(margs)
+    if not err:
+        # extracted Spec checker on the bands the real code produced (before regularisation when it is on)
+        b_inf = spy_in[0] if spy_in is not None else cm[:, :, 1]
+        b_sup = spy_in[1] if spy_in is not None else cm[:, :, 3]
+        margs.append((6, [w // 2, ny, nx, wire_map(binf), wire_map(np.asarray(b_inf, dtype=np.float32))]))
+        margs.append((6, [w // 2, ny, nx, wire_map(bsup), wire_map(np.asarray(b_sup, dtype=np.float32))]))
 
     def after(*mres):
         ctx.case(nontrivial_key(binf.astype(np.float64), w, w // 2, ("mfi", ny, nx, w, reg, p["inv"], p["seed"])))
@@ -529,8 +546,12 @@ def run_mfi(ctx, model, p):
         # the same median on the bands (before regularisation when it is on)
         a_inf = spy_in[0] if spy_in is not None else cm[:, :, 1]
         a_sup = spy_in[1] if spy_in is not None else cm[:, :, 3]
-        check_median_like(ctx, "mfi_inf", binf, a_inf.astype(np.float32), binf.astype(np.float64), w, rp)
-        check_median_like(ctx, "mfi_sup", bsup, a_sup.astype(np.float32), bsup.astype(np.float64), w, rp)
+        ok1 = check_median_like(ctx, "mfi_inf", binf, a_inf.astype(np.float32), binf.astype(np.float64), w, rp)
+        ok2 = check_median_like(ctx, "mfi_sup", bsup, a_sup.astype(np.float32), bsup.astype(np.float64), w, rp)
+        ctx.count("mfi_spec_checker_runs", 2)
+        if ok1 and ok2 and list(mres[n_corr:n_corr + 2]) != [1, 1]:
+            ctx.violation("mfi_spec_checker", f"median_for_intervals {ny}x{nx} filter_size {w}: the extracted Spec checker "
+                          f"(median_map_spec_b) rejects a filtered bound band of the real code", rp)
     return margs, after
 
 
